@@ -45,8 +45,15 @@ def m_codecs_lookup(ex, st, fn, args, kw):
         if b: yield s2, Opaque()
         else: yield s2, Raise(ex.new_builtin_exc(s2, "LookupError", ["unknown encoding"]))
 
+def m_str_encode(ex, st, recv, args, kw):
+    """''.encode(name): LookupError when the codec is no text encoding (hex, rot13, ...; G-10), else bytes"""
+    text = ex.absfun_s("codec_is_text_encoding", [z3.StringSort()], z3.BoolSort())(lift(args[0]).z)
+    for s2, b in ex.fork(st, Sym(BOOL, text)):
+        if b: yield s2, Opaque()
+        else: yield s2, Raise(ex.new_builtin_exc(s2, "LookupError", ["not a text encoding"]))
+
 def base_callees():
-    return {"_tools.human_readable_list": ModelContract(m_opaque_str), "builtin:codecs.lookup": m_codecs_lookup, "class:Range": m_range_ctor}
+    return {"_tools.human_readable_list": ModelContract(m_opaque_str), "builtin:codecs.lookup": m_codecs_lookup, "strmethod:encode": m_str_encode, "class:Range": m_range_ctor}
 
 
 def new_format(ex, st, fmt):
@@ -94,7 +101,7 @@ def expected_store(ex, st, name, value):
     v = value.z
     int_ok = ex.absfun_s("int_parses", [z3.StringSort()], z3.BoolSort())(v); int_v = ex.absfun_s("int_value", [z3.StringSort()], z3.IntSort())(v)
     low = lower_of(ex, v)
-    if name == "encoding": return ex.absfun_s("codec_known", [z3.StringSort()], z3.BoolSort())(v), "_encoding", value
+    if name == "encoding": return z3.And(ex.absfun_s("codec_known", [z3.StringSort()], z3.BoolSort())(v), ex.absfun_s("codec_is_text_encoding", [z3.StringSort()], z3.BoolSort())(v)), "_encoding", value
     if name == "header": return z3.And(int_ok, int_v >= 0), "_header", Sym(INT, int_v)
     if name == "sheet": return z3.And(int_ok, int_v >= 1), "_sheet", Sym(INT, int_v)
     if name == "allowed_characters": return lift(st.ghost.get("range_ok_marker", True)).z if False else None, "_allowed_characters", None
